@@ -190,7 +190,8 @@ func newFaultClient(versionFrame []byte, passN int, werr error, onFail func(call
 		fw.armed = true
 		fw.mu.Unlock()
 		return r.c, fp, nil
-	case <-time.After(20 * time.Second):
+	case <-cliCase.Load().After(20 * time.Second):
+		cliCase.Load().Fired()
 		fp.Shutdown()
 		return nil, fp, peers.ErrTimeout
 	}
@@ -205,7 +206,8 @@ func (s *faultPeer) Reply(b []byte) error {
 	select {
 	case err := <-errc:
 		return err
-	case <-time.After(20 * time.Second):
+	case <-cliCase.Load().After(20 * time.Second):
+		cliCase.Load().Fired()
 		return peers.ErrTimeout
 	}
 }
